@@ -5,6 +5,7 @@ import (
 	"fmt"
 	"os"
 	"sort"
+	"time"
 )
 
 // An oracle checks a property directly on the implementation (search support:
@@ -61,6 +62,9 @@ func runOracle(prop string, seed uint64, n int, tier, out, extra string) {
 		if stopAfter > 0 && unclassified >= stopAfter {
 			break
 		}
+		if hung {
+			break
+		}
 		detail, sig, class := safeCheck(o, in, res.Dist)
 		if detail != "" && class == "" {
 			unclassified++
@@ -89,13 +93,34 @@ func runOracle(prop string, seed uint64, n int, tier, out, extra string) {
 	os.WriteFile(out, b, 0o644)
 }
 
+// caseTimeout bounds one oracle input or suite case: the implementation is total (C11),
+// so a case that is still running after it is reported as non-termination. A goroutine
+// cannot be killed: the caller stops after the first timeout and the process exits.
+const caseTimeout = 60 * time.Second
+
+var hung bool
+
 func safeCheck(o *oracle, in string, dist map[string]int) (detail, sig, class string) {
-	defer func() {
-		if r := recover(); r != nil {
-			detail = "panic in implementation"
-			sig = "panic"
-			class = ""
-		}
+	type res struct{ detail, sig, class string }
+	local := map[string]int{} // merged only when the call returns: a hung call may keep writing
+	done := make(chan res, 1)
+	go func() {
+		defer func() {
+			if r := recover(); r != nil {
+				done <- res{"panic in implementation", "panic", ""}
+			}
+		}()
+		d, s, c := o.check(in, local)
+		done <- res{d, s, c}
 	}()
-	return o.check(in, dist)
+	select {
+	case r := <-done:
+		for k, v := range local {
+			dist[k] += v
+		}
+		return r.detail, r.sig, r.class
+	case <-time.After(caseTimeout):
+		hung = true
+		return fmt.Sprintf("the implementation did not terminate within %v on this input", caseTimeout), "timeout", ""
+	}
 }
